@@ -449,7 +449,18 @@ def check_attr_loop(prog, fv, r3, r4):
         gs = flat_guards(fv, b)
         txt = " & ".join(atom(g, l) for g, l, h in gs)
         dup = any(g[0] == "call" and g[1].endswith("HashSet::<T, S>::insert") and l == {"false"} for g, l, h in gs)
-        mp = any(g[0] == "bin" and g[1] == "Eq" and "code" in expr_vars(g) and ceval(g[3]) in (14, 15) for g, l, h in gs) or "MP_REACH" in txt or "MP_UNREACH" in txt
+        brs_all = branches(fv)
+        cd_atoms = []
+        x = b
+        for _ in range(4):     # the Err block and the straight-line blocks leading to it
+            for (cb, cl, cs) in fv.control_deps().get(x, ()):
+                if cb in brs_all:
+                    cd_atoms.append(brs_all[cb].expr)
+            ps = [p for _, p in fv.pred[x]]
+            if len(ps) != 1:
+                break
+            x = ps[0]
+        mp = any(g[0] == "bin" and g[1] == "Eq" and "code" in expr_vars(g) and ceval(g[3]) in (14, 15) for g in cd_atoms + [g for g, l, h in gs])
         opaque = any(g[0] == "discr" and any(c.endswith("Attribute::canonical_flags") for c in expr_calls(g)) and l == {"None"} for g, l, h in gs) and \
             any(g[0] == "bin" and g[1] in ("Gt", "Lt", "Ge", "Le") and any(c.endswith("::len") for c in expr_calls(g)) for g, l, h in gs)
         n4 += 1
